@@ -281,9 +281,9 @@ mod imp {
         {
             use inkayaku_engine_core::verif::SearchTable;
             let keys: [u64; 3] = [0x9E37_79B9_7F4A_7C15, 1, u64::MAX];
-            // (depth, value, node type) packed into the reference's u64
-            let shapes: [(usize, i32, u8); 3] = [(1, 10, 0), (5, -20, 1), (3, 30, 2)];
-            let pack = |s: (usize, i32, u8)| -> u64 { ((s.0 as u64) << 40) | (((s.1 as u32) as u64) << 8) | s.2 as u64 };
+            // (depth, value, node type, value of the stored line) packed into the reference's u64
+            let shapes: [(usize, i32, u8, i32); 3] = [(1, 10, 0, 11), (5, -20, 1, -7), (3, 30, 2, 300)];
+            let pack = |s: (usize, i32, u8, i32)| -> u64 { ((s.0 as u64) << 56) | ((((s.1 as i16) as u16) as u64) << 40) | ((s.2 as u64) << 32) | ((s.3 as u32) as u64) };
             let mut menu: Vec<Op> = Vec::new();
             for &k in &keys {
                 for &sh in &shapes {
@@ -301,7 +301,7 @@ mod imp {
                 fn apply(t: &mut SearchTable, r: &mut RefTable, op: Op) {
                     match op {
                         Op::Put(k, v) => {
-                            t.put(k, (v >> 40) as usize, ((v >> 8) & 0xffff_ffff) as u32 as i32, (v & 0xff) as u8);
+                            t.put(k, (v >> 56) as usize, ((v >> 40) & 0xffff) as u16 as i16 as i32, ((v >> 32) & 0xff) as u8, (v & 0xffff_ffff) as u32 as i32);
                             r.put(k, v);
                         }
                         Op::Get(_) => {}
@@ -322,11 +322,18 @@ mod imp {
                     // observable state after the last operation
                     let mut problem: Option<String> = None;
                     for &k in &keys {
-                        let got = t.get(k).map(|(d, v, n)| ((d as u64) << 40) | (((v as u32) as u64) << 8) | n as u64);
+                        let raw = t.get(k);
+                        let got = raw.map(|(d, v, n, lv, _)| ((d as u64) << 56) | ((((v as i16) as u16) as u64) << 40) | ((n as u64) << 32) | ((lv as u32) as u64));
                         let want = r.get(k);
                         if got != want {
-                            problem = Some(format!("lookup_differs: get({:#x}) = {:?}, reference {:?} (depth<<40 | value<<8 | bound)", k, got, want));
+                            problem = Some(format!("lookup_differs: get({:#x}) = {:?}, reference {:?} (depth<<56 | value<<40 | bound<<32 | value of the stored line)", k, got, want));
                             break;
+                        }
+                        if let Some((_, _, _, _, stored_key)) = raw {
+                            if stored_key != k {
+                                problem = Some(format!("lookup_differs: get({:#x}) returned an entry stored for key {:#x}", k, stored_key));
+                                break;
+                            }
                         }
                     }
                     if problem.is_none() && t.len() != r.vals.len() {
